@@ -18,6 +18,7 @@ import concurrent.futures
 import hashlib
 import itertools
 import math
+import os
 import sys
 import threading
 
@@ -574,6 +575,20 @@ finally:
         b.kill()
 
 lap('numba_kernels')
+# ---- the minimisation under numba's 'workqueue' threading layer (a child interpreter with NUMBA_THREADING_LAYER=workqueue):
+#      it completes and gives the same answer for every number of worker threads
+import child_modes as _cm  # noqa: E402
+_src = os.environ.get("VERIF_ARIM_SRC") or "/repo/src"
+_env = {"NUMBA_THREADING_LAYER": "workqueue"}
+if os.environ.get("NUMBA_CACHE_DIR"):
+    _env["NUMBA_CACHE_DIR"] = os.environ["NUMBA_CACHE_DIR"]
+_res = _cm.run_child(_cm.C13_WORKQUEUE, _src, env_extra=_env)
+evaluations += 1
+chk.count(child_interpreter="numba workqueue layer: " + _res.split(":")[0])
+if not _res.startswith("OK"):
+    chk.violation("workqueue-layer", "find_minimum_times under numba's workqueue threading layer: " + _res,
+                  {"program": "harness/child_modes.py C13_WORKQUEUE", "environment": "NUMBA_THREADING_LAYER=workqueue", "outcome": _res}, failing_input_found=True)
+
 # ---- the glue model of the public functions (Model files added later, see manifest text) tied to the library on every run:
 #      inputs generated here, the library run on them, the model evaluated on the same inputs by vm_compute inside coqc
 import ties.tie_C13 as _tie_glue  # noqa: E402
